@@ -248,3 +248,11 @@ CHECKS["C05"]["technique"] += "; abstract evaluation of the line machine (per-li
 for _e in ENGINES:
     if _e["name"] == "E7 linemodel":
         _e["serves_properties"] = ["C03", "C05", "C08"]
+
+CHECKS["C07"]["text"] = CHECKS["C07"]["text"].replace(" What the line pre-processor does to the characters inside literals is NOT decided.", "") + " Line pre-processing (E7, O-literal): for 25 classes of literal content (blanks, comma, parentheses, equals, semicolon, comment markers, hash, keywords, statement words, non-ASCII letters, doubled quote, double quotes, dot, colon / slash, tab, digits) in four positions, the script is formed into lines and run through the line machine, both evaluated abstractly, and the literal must reach the grammar verbatim inside one statement; ten classes do not (recorded known findings, each confirmed on the real parser - the property text itself records them)."
+CHECKS["C07"]["engine"] += " + E7 linemodel (O-literal)"
+CHECKS["C07"]["technique"] += "; abstract evaluation of pre_process_data / line formation / line machine on literal classes"
+CHECKS["C07"]["note"] = "Decided per class of literal content and position, not for arbitrary literals or combinations of features. Ten known findings (pre-processor re-spaces commas, parentheses, equals signs inside literals of more than one word; cuts at /* */; keeps non-ASCII letters escaped; turns tabs into blanks)."
+for _e in ENGINES:
+    if _e["name"] == "E7 linemodel":
+        _e["serves_properties"] = ["C03", "C05", "C07", "C08"]
